@@ -34,6 +34,8 @@ for it in glue.UNIT['items']:
         # the AST with the class level transparent (leaf_sem is defined over it), instead of the opaque leaves the other build units use
         for f in ('class_types.rs', 'ast_upper_types.rs', 'class_sem.rs', 'leaf_sem.rs'):
             items.append(RawFile(os.path.join(HERE, '..', 'common', f), f))
+    elif isinstance(it, Raw) and it.label == 'Box::as_ref spec':
+        continue  # common/class_types.rs (included above) carries the same std contract
     elif isinstance(it, RawFile) and it.label == 'same_class_decl.rs':
         # registry equality DEFINED (as ComparableAst::eq is proved to compute it, unit U-reg), with the lemma that leaf_sem respects it
         items.append(RawFile(os.path.join(HERE, '..', 'common', 'same_class_def.rs'), 'same_class_def.rs'))
